@@ -39,6 +39,8 @@ def gen_model(seed: int) -> Dict[str, Any]:
     node_pos: Dict[Tuple[int, int, int], List[float]] = {}
     p_near = rs.pick([0.0, 0.3, 0.6])
     p_detach = rs.pick([0.0, 0.0, 0.15, 0.3])
+    p_collapse = Stream(seed, "collapse").pick([0.0, 0.0, 0.0, 0.0, 0.0, 0.0, 0.3, 0.6])
+    collapsed = False
     blocks = []
     per_node: Dict[Tuple[int, int, int], List[List[float]]] = {}
     for i, c in enumerate(cells):
@@ -70,6 +72,16 @@ def gen_model(seed: int) -> Dict[str, Any]:
                 pos = list(base)
                 intent.append(("n", node))
             corners.append(pos)
+        # a collapsed block (wedge touching its axis, prism, pyramid): some corners of one operation at the same point.
+        # (The library cannot grade an edge of no length, so these models are assembled and judged on the mesh, not written.)
+        kr = Stream(seed, "collapse", i)
+        if p_collapse and kr.chance(p_collapse):
+            how = kr.pick(["edge", "two_edges", "two_edges", "face"])
+            pairs = {"edge": [(4, 0)], "two_edges": [(4, 0), (5, 1)], "face": [(5, 4), (6, 4), (7, 4)]}[how]
+            for (dst, src) in pairs:
+                corners[dst] = list(corners[src]) if kr.chance(0.7) else [x + kr.uniform(-2e-9, 2e-9) for x in corners[src]]
+                intent[dst] = intent[src]
+            collapsed = True
         # 'near' points stay within 1e-8 of each other, 'detached' ones >= 1.2e-6 from everything
         rot = hexref.IDENTITY if rs.chance(0.4) else rs.randrange(24)
         blocks.append({"name": f"b{i}", "corners": hexref.renumber(corners, rot), "intent": hexref.renumber(intent, rot), "rot": rot, "cell": list(c)})
@@ -91,10 +103,12 @@ def gen_model(seed: int) -> Dict[str, Any]:
         merges.append([m, s])
     delete = rs.randrange(100) if rs.chance(0.25) else None
     model = {"blocks": blocks, "patches": patches, "merges": merges, "delete": delete}
+    if collapsed:
+        model["collapsed"] = True
     # curved edges on some operations (evaluating an edge must not disturb the vertices it joins): three-point
     # arcs, arcs by an origin that is not quite equidistant (the library adjusts it), helical angle-and-axis arcs
     er = Stream(seed, "edges", "C05")
-    if er.chance(0.25):
+    if er.chance(0.25) and not collapsed:
         for b in blocks:
             if not er.chance(0.5):
                 continue
@@ -184,7 +198,8 @@ def make_program(model: Dict[str, Any], cfg_seed: int, identity: bool = False) -
     else:
         ops += flips + ((mops + aops) if merge_first else (aops + mops))
     ops.append({"op": "assemble"})
-    ops.append({"op": "write", "path": DICT_PATH})
+    if not model.get("collapsed"):
+        ops.append({"op": "write", "path": DICT_PATH})
     return {"ops": ops, "point_type": cs.pick(["list", "list", "tuple", "array"])}
 
 
@@ -281,6 +296,7 @@ def run_once(program: Dict[str, Any], sched: Dict[str, Any]) -> Dict[str, Any]:
         if op["op"] == "assemble":
             live["indexes"] = [list(b.indexes) for b in it.mesh.blocks]
             live["positions"] = [[float(x) for x in v.position] for v in it.mesh.vertices]
+            live["vertex_indexes"] = [int(v.index) for v in it.mesh.vertices]
 
     it.hooks["after"] = after
     with seams.run_world(world):
@@ -308,6 +324,8 @@ def oracle(program: Dict[str, Any], run: Dict[str, Any]) -> Tuple[List[Dict[str,
     if run["outcome"] != "ok":
         bad("write-failed", f"outcome {run['outcome']}: {run['msg']}")
         return V, None
+    if not any(op["op"] == "write" for op in program["ops"]):
+        return oracle_live(program, run, added, keys, V, bad)
     try:
         parsed = foam.parse_blockmeshdict(run["text"])
     except Exception as e:
@@ -365,6 +383,49 @@ def oracle(program: Dict[str, Any], run: Dict[str, Any]) -> Tuple[List[Dict[str,
     return V, sig_got
 
 
+def oracle_live(program, run, added, keys, V, bad):
+    """models that are assembled only (collapsed blocks): judged on Block.indexes and the vertex list"""
+    got = run["live"].get("indexes")
+    pos = run["live"].get("positions")
+    if got is None or len(got) != len(added):
+        bad("block-count", f"{0 if got is None else len(got)} blocks for {len(added)} operations")
+        return V, None
+    n = len(pos)
+    used = sorted({i for row in got for i in row})
+    if used != list(range(n)):
+        bad("indices-not-dense", f"vertices listed: {n}, indices used by blocks: {used[:20]}…")
+    if run["live"].get("vertex_indexes") is not None and run["live"]["vertex_indexes"] != list(range(n)):
+        bad("index-not-position", f"Vertex.index {run['live']['vertex_indexes'][:12]}… for {n} entries")
+    sig_ref = partition_signature(keys)
+    sig_got = partition_signature(got)
+    if sig_ref != sig_got:
+        where = None
+        flat_ref = [(added[b], c, keys[b][c]) for b in range(len(added)) for c in range(8)]
+        flat_got = [got[b][c] for b in range(len(added)) for c in range(8)]
+        for i in range(len(flat_ref)):
+            for j in range(i):
+                same_ref = flat_ref[i][2] == flat_ref[j][2]
+                same_got = flat_got[i] == flat_got[j]
+                if same_ref != same_got:
+                    where = (f"{flat_ref[i][0]} corner {flat_ref[i][1]} and {flat_ref[j][0]} corner {flat_ref[j][1]}: "
+                             f"reference says {'same' if same_ref else 'different'} vertex (keys {flat_ref[i][2]} / {flat_ref[j][2]}), "
+                             f"assembled {flat_got[i]} / {flat_got[j]}")
+                    break
+            if where:
+                break
+        merged = any(k[1] for row in keys for k in row)
+        bad("wrong-connectivity", where or "partitions differ")
+        V[-1]["key"] = "wrong-connectivity:" + ("merged" if merged else "plain") + ":collapsed"
+    hexes = effective_model(program)[0]
+    for b, nme in enumerate(added):
+        for c in range(8):
+            i = got[b][c]
+            if i < n and models.dist(pos[i], hexes[nme]["corners"][c]) > 2e-7:
+                bad("vertex-position", f"{nme} corner {c} at {hexes[nme]['corners'][c]} refers to vertex {i} at {pos[i]}")
+                break
+    return V, sig_got
+
+
 def evaluate(pid: str, program: Dict[str, Any], scheds: List[Dict[str, Any]]) -> Dict[str, Any]:
     viols, runs = [], []
     first = None
@@ -375,8 +436,8 @@ def evaluate(pid: str, program: Dict[str, Any], scheds: List[Dict[str, Any]]) ->
             v["sched_index"] = si
         viols += V
         if first is None:
-            first = (si, sig, run["text"])
-        elif sig is not None and first[1] is not None and (sig != first[1] or run["text"] != first[2]):
+            first = (si, sig, run["text"], run["live"].get("indexes"))
+        elif sig is not None and first[1] is not None and (sig != first[1] or run["text"] != first[2] or run["live"].get("indexes") != first[3]):
             viols.append({"property": "C05", "class": "schedule-dependent-vertices", "key": "schedule-dependent-vertices", "sched_index": si,
                           "detail": f"patch-set order {first[0]} and {si} give different vertex numbering/connectivity for the same script"})
         runs.append({"log": run["log"], "decisions": run["decisions"], "sig": sig, "outcome": run["outcome"]})
@@ -434,6 +495,7 @@ def task(seed: int, arg: Dict[str, Any]) -> Dict[str, Any]:
             out["stats"]["corners_where_two_slave_patches_meet"] = multi
             intents = [x for b in model["blocks"] for x in b["intent"]]
             out["stats"]["detached_corners"] = sum(1 for x in intents if x[0] == "d")
+            out["stats"]["models_with_collapsed_blocks"] = 1 if model.get("collapsed") else 0
     out["klass"] = "merged" if merged else "plain"
     if arg.get("sample"):
         out["sample"] = {"program_ops": program["ops"][:40], "schedule": scheds[-1]}
